@@ -67,6 +67,12 @@ def run_check(pid, tier, root=None, write=True):
             if result == 'ok': run.ok(k, detail, rule='SEEDED')
             elif result == 'skipped': run.ok(k, 'skipped: ' + detail, rule='SEEDED')
             else: run.unknown(k, detail, rule='SEEDED')
+        run.rule_doc['REFACTORED'] = ('every kept behaviour-preserving refactoring of the code implementing this property (written by independent '
+                                      'sub-agents, equivalence confirmed by their harness) is re-applied to a scratch copy and is not reported')
+        for rid, result, detail in deep.refactoring_replay(pid):
+            k = 'refactored :: %s' % rid
+            if result == 'FALSE-ALARM': run.unknown(k, 'a behaviour-preserving refactoring is reported as a violation: ' + detail, rule='REFACTORED')
+            else: run.ok(k, detail, rule='REFACTORED')
         run.rule_doc['PROBE'] = ('behaviour-preserving variants of the functions this check consults (one local variable renamed; if/else '
                                  'swapped, comparison flipped, temporary introduced, pass inserted, ...) never produce a VIOLATION')
         pr = deep.probes(pid)
